@@ -197,3 +197,88 @@ pub fn record_ser(seed: u64, n: usize) -> Result<Vec<J>, String> {
     }
     Ok(recs)
 }
+
+// ---------------------------------------------------------------- random builder call sequences (BuilderTrace)
+
+pub fn record_builder(seed: u64, n: usize) -> Result<Vec<J>, String> {
+    use std::collections::BTreeMap;
+    use std::sync::Arc;
+    let mut rng = StdRng::seed_from_u64(seed);
+    let rule_names = ["r1", "r2", "r3", "r 4", "", "R1"];
+    let fn_names = ["f", "g", "fn1", "_x", "if", "second", "_-", "1x", "é1", "facts"];
+    let sym_names = ["s", "t", "S"];
+    let mut recs = Vec::new();
+    for _ in 0..n {
+        let log = Arc::new(Log::default());
+        let rule_j = |rng: &mut StdRng| -> J { let nm = rule_names[rng.gen_range(0..rule_names.len())]; json!({"name": cps(nm), "expr": expr_to_model(&Expr::value(nm.to_string()))}) };
+        let fn_j = |rng: &mut StdRng| -> J { json!({"name": cps(fn_names[rng.gen_range(0..fn_names.len())]), "cacheable": true, "suspend": 0, "script": [{"r": "echo"}]}) };
+        let len = rng.gen_range(0..=30);
+        let mut ops: Vec<J> = Vec::new();
+        let mut accepted: Vec<usize> = Vec::new();
+        let mk_rule = |j: &J| -> Result<Rule, String> { Ok(Rule::new(uncps(&j["name"])?, BTreeMap::new(), expr_from_model(&j["expr"])?)) };
+        // apply one op to a builder
+        let apply = |b: Builder, o: &J, log: &Arc<Log>| -> Result<reval::Result<Builder>, String> {
+            Ok(match o["op"].as_str().unwrap_or("") {
+                "with_rule" => b.with_rule(mk_rule(&o["rule"])?),
+                "with_rules" => b.with_rules(o["rules"].as_array().unwrap().iter().map(|r| mk_rule(r)).collect::<Result<Vec<_>, _>>()?),
+                "with_function" => b.with_function(modelfn_from_model(&o["f"], log.clone())?),
+                "with_functions" => {
+                    let mut v: Vec<Box<dyn UserFunction + Send + Sync + 'static>> = Vec::new();
+                    for f in o["fs"].as_array().unwrap() {
+                        v.push(Box::new(modelfn_from_model(f, log.clone())?));
+                    }
+                    b.with_functions(v)
+                }
+                "with_symbol" => Ok(b.with_symbol(uncps(&o["n"])?, from_model(&o["v"])?)),
+                "with_symbols" => b.with_symbols(Symbols::from(o["tab"].as_array().unwrap().iter().map(|kv| Ok((uncps(&kv[0])?, from_model(&kv[1])?))).collect::<Result<Vec<_>, String>>()?)),
+                other => return Err(format!("op {other}")),
+            })
+        };
+        let mut b = ruleset();
+        for _ in 0..len {
+            let mut o = match rng.gen_range(0..6) {
+                0 => json!({"op": "with_rule", "rule": rule_j(&mut rng)}),
+                1 => json!({"op": "with_rules", "rules": (0..rng.gen_range(0..3)).map(|_| rule_j(&mut rng)).collect::<Vec<_>>()}),
+                2 => json!({"op": "with_function", "f": fn_j(&mut rng)}),
+                3 => json!({"op": "with_functions", "fs": (0..rng.gen_range(0..3)).map(|_| fn_j(&mut rng)).collect::<Vec<_>>()}),
+                4 => json!({"op": "with_symbol", "n": cps(sym_names[rng.gen_range(0..3)]), "v": to_model(&Value::Int(rng.gen_range(0..50)))}),
+                _ => json!({"op": "with_symbols", "tab": (0..rng.gen_range(0..3)).map(|_| json!([cps(sym_names[rng.gen_range(0..3)]), to_model(&Value::Int(rng.gen_range(50..99)))])).collect::<Vec<_>>()}),
+            };
+            let res = apply(b, &o, &log)?;
+            match res {
+                Ok(nb) => {
+                    o["x"] = json!({"ok": true});
+                    accepted.push(ops.len());
+                    b = nb;
+                }
+                Err(e) => {
+                    o["x"] = obs_to_model(&classify(&e));
+                    // the refused call consumed the builder: rebuild the accepted prefix
+                    let mut nb = ruleset();
+                    for &k in &accepted {
+                        nb = apply(nb, &ops[k], &log)?.map_err(|e| format!("replaying an accepted op failed: {e}"))?;
+                    }
+                    b = nb;
+                }
+            }
+            ops.push(o);
+        }
+        // probes: one rule per function name and per symbol
+        let mut probes: Vec<J> = Vec::new();
+        for (k, f) in fn_names.iter().enumerate() {
+            probes.push(json!({"name": cps(&format!("\u{1}f{k}")), "expr": expr_to_model(&Expr::func(*f, Expr::value(0)))}));
+        }
+        for (k, s) in sym_names.iter().enumerate() {
+            probes.push(json!({"name": cps(&format!("\u{1}s{k}")), "expr": expr_to_model(&Expr::symbol(*s))}));
+        }
+        let po = json!({"op": "with_rules", "rules": probes});
+        let rs = apply(b, &po, &log)?.map_err(|e| format!("adding probes failed: {e}"))?.build();
+        let outs = block_on(rs.evaluate_value(&Value::None)).map_err(|p| format!("panic: {p}"))?.map_err(|e| e.to_string())?;
+        let outcomes: Vec<J> = outs.iter().map(|o| {
+            let obs = match &o.value { Ok(v) => Obs::Ok(v.clone()), Err(e) => classify(e) };
+            json!({"rule": cps(o.rule.name()), "o": obs_to_model(&obs)})
+        }).collect();
+        recs.push(json!({"ops": ops, "probes": probes, "outcomes": outcomes}));
+    }
+    Ok(recs)
+}
